@@ -31,6 +31,10 @@ const LOCK_POLL_INTERVAL_MS: u64 = 50;
 /// Panics if system time is before UNIX epoch (should never happen in practice).
 #[must_use]
 pub fn current_unix_timestamp() -> u64 {
+    #[cfg(feature = "verif")]
+    if let Some(t) = crate::verif_hooks::now_override() {
+        return t;
+    }
     std::time::SystemTime::now()
         .duration_since(std::time::UNIX_EPOCH)
         .expect("system time before UNIX_EPOCH")
@@ -42,6 +46,10 @@ pub fn current_unix_timestamp() -> u64 {
 /// Use this variant in contexts where panicking is not acceptable (e.g., formatting).
 #[must_use]
 pub fn try_current_unix_timestamp() -> Option<u64> {
+    #[cfg(feature = "verif")]
+    if let Some(t) = crate::verif_hooks::now_override() {
+        return Some(t);
+    }
     std::time::SystemTime::now()
         .duration_since(std::time::UNIX_EPOCH)
         .ok()
@@ -377,10 +385,14 @@ pub(crate) fn atomic_write_with_lock_timeout(
     file_description: &str,
     timeout_ms: u64,
 ) -> Result<SaveOutcome> {
+    #[cfg(feature = "verif")]
+    crate::verif_hooks::point("save.start", path);
     // Ensure parent directory exists
     ensure_parent_dir(path).map_err(|e| {
         SlocGuardError::io_with_context(e, path.to_path_buf(), "create parent directory")
     })?;
+    #[cfg(feature = "verif")]
+    crate::verif_hooks::point("save.dir-ready", path);
 
     // Generate unique temp filename in same directory (required for atomic rename)
     let parent = path.parent().unwrap_or_else(|| Path::new("."));
@@ -396,18 +408,32 @@ pub(crate) fn atomic_write_with_lock_timeout(
         let temp_file = File::create(&temp_path).map_err(|e| {
             SlocGuardError::io_with_context(e, temp_path.clone(), "create temp file")
         })?;
+        #[cfg(feature = "verif")]
+        crate::verif_hooks::point("save.temp-created", path);
         let mut writer = io::BufWriter::new(&temp_file);
+        #[cfg(feature = "verif")]
+        if crate::verif_hooks::crash_armed("save.mid-write", path) {
+            let _ = writer.write_all(&content[..content.len() / 2]);
+            let _ = writer.flush();
+            std::process::abort();
+        }
         writer.write_all(content).map_err(|e| {
             SlocGuardError::io_with_context(e, temp_path.clone(), "write temp file")
         })?;
+        #[cfg(feature = "verif")]
+        crate::verif_hooks::point("save.written", path);
         writer.flush().map_err(|e| {
             SlocGuardError::io_with_context(e, temp_path.clone(), "flush temp file")
         })?;
+        #[cfg(feature = "verif")]
+        crate::verif_hooks::point("save.flushed", path);
         // Sync to disk before rename for durability
         temp_file
             .sync_all()
             .map_err(|e| SlocGuardError::io_with_context(e, temp_path.clone(), "sync temp file"))?;
     }
+    #[cfg(feature = "verif")]
+    crate::verif_hooks::point("save.synced", path);
 
     // Acquire exclusive lock on target file (create if needed, don't truncate)
     let lock_file = OpenOptions::new()
@@ -416,6 +442,8 @@ pub(crate) fn atomic_write_with_lock_timeout(
         .truncate(false) // Don't truncate - we're just using this for locking
         .open(path)
         .map_err(|e| SlocGuardError::io_with_context(e, path.to_path_buf(), "open for lock"))?;
+    #[cfg(feature = "verif")]
+    crate::verif_hooks::point("save.lock-opened", path);
 
     if let Err(e) = try_lock_exclusive_with_timeout(&lock_file, timeout_ms) {
         // temp_guard will clean up on drop
@@ -426,6 +454,8 @@ pub(crate) fn atomic_write_with_lock_timeout(
         );
         return Ok(SaveOutcome::Skipped);
     }
+    #[cfg(feature = "verif")]
+    crate::verif_hooks::point("save.locked", path);
 
     // Atomic rename: temp → target
     // On Unix this is truly atomic. On Windows, we need to remove target first.
@@ -460,9 +490,13 @@ pub(crate) fn atomic_write_with_lock_timeout(
     {
         fs::rename(&temp_path, path)
             .map_err(|e| SlocGuardError::io_with_context(e, path.to_path_buf(), "rename"))?;
+        #[cfg(feature = "verif")]
+        crate::verif_hooks::point("save.renamed", path);
         // Note: unlock_file is best-effort; dropping lock_file closes the handle
         // anyway, releasing the lock as a side effect.
         unlock_file(&lock_file);
+        #[cfg(feature = "verif")]
+        crate::verif_hooks::point("save.unlocked", path);
     }
 
     // Rename succeeded, don't remove the (now renamed) temp file
